@@ -19,7 +19,7 @@ from ..pool import pmap
 META = {
     "level": "model_checking",
     "text": "TLC checks the footnote model (registries filled during rendering, then SortFootnotes, docutils' numbering, resolution, the unreferenced detector and CollectFootnotes as separate actions) against the declarative numbering/linking/collection clauses for every arrangement within the bound and all four flag settings; every behaviour is replayed through publish_doctree and random long arrangements are validated as traces by TLC. The order of that chain is itself a model (Pipeline: docutils' priority scheduler over the transforms registered in this tree, priorities extracted at check time) checked against the stage order the footnote and anchor models rely on, and bound to recorded Transformer runs.",
-    "note": "Bound: arrangements <= 4 (quick) / 5 (thorough) top-level blocks over labels {a, A, 1, 2} (labels are matched literally: a and A are two footnotes) (reference paragraph or definition) x footnote_sort x footnote_transition. docutils front end. With sorting off docutils numbers auto footnotes in definition order; only injectivity, compactness and kept numeric labels are claimed there. References whose label has no definition are left to docutils (no claim except that others are undisturbed).",
+    "note": "Bound: arrangements <= 4 (quick) / 5 (thorough) top-level blocks over labels {a, A, 1, 2} (labels are matched literally: a and A are two footnotes) (reference paragraph or definition) x footnote_sort x footnote_transition. Containers: the definition inside a block quote and the reference inside a note directive, <= the same bound over labels {a, 1}. docutils front end. With sorting off docutils numbers auto footnotes in definition order; only injectivity, compactness and kept numeric labels are claimed there. References whose label has no definition are left to docutils (no claim except that others are undisturbed).",
     "technique": "TLA+ spec + TLC exhaustive check; spec-behaviour replay into the code; TLC batch trace validation",
     "specs": ["Footnotes", "FootnotesTrace", "Pipeline", "PipelineTrace"],
 }
@@ -31,7 +31,8 @@ def doc_text(evs):
     lines, at_line = [], {}
     for i, (k, l) in enumerate(evs, 1):
         at_line[i] = len(lines) + 1
-        lines += [{"ref": f"R{i} [^{l}]", "def": f"[^{l}]: D{i}", "hr": "***", "head": f"# {l}"}[k], ""]
+        lines += {"ref": [f"R{i} [^{l}]"], "def": [f"[^{l}]: D{i}"], "hr": ["***"], "head": [f"# {l}"],
+                  "qdef": [f"> [^{l}]: D{i}"], "nref": ["```{note}", f"R{i} [^{l}]", "```"]}[k] + [""]
     return "\n".join(lines) + "\n", at_line
 
 
@@ -73,7 +74,7 @@ def observe(case):
     # references, by marker paragraph
     refview = []
     for i, (k, l) in enumerate(evs, 1):
-        if k != "ref":
+        if k not in ("ref", "nref"):
             continue
         para = [p for p in doc.findall(nodes.paragraph) if re.match(rf"R{i}\b", p.astext()) and not isinstance(p.parent, nodes.system_message)]
         if len(para) != 1:
@@ -116,9 +117,19 @@ def observe(case):
         elif isinstance(c, nodes.system_message):
             if "[ref.footnote]" in c.astext():
                 final.append(["w", line_at.get(c.get("line"), -1)])      # (docutils' own messages, e.g. about a final transition, are not MyST's)
+        elif isinstance(c, nodes.block_quote):
+            holds = ("fn" if list(c.findall(nodes.footnote)) else
+                     "warn" if any("[ref.footnote]" in m.astext() for m in c.findall(nodes.system_message)) else "empty")
+            final.append(["q", line_at.get(c.line, -1), holds])
+        elif isinstance(c, nodes.note):
+            m = re.search(r"R(\d+)\b", c.astext())
+            final.append(["n", int(m.group(1))] if m else ["?"])
         else:
             final.append(["?", c.tagname])
-    nested = [f for f in fns if not isinstance(f.parent, (nodes.document, nodes.section))]
+    # a definition written inside a block quote stays there when sorting is off; anything else is at document/section level
+    qdef_at = {i for i, (k, _) in enumerate(evs, 1) if k == "qdef"}
+    nested = [f for f in fns if not isinstance(f.parent, (nodes.document, nodes.section))
+              and not (not case["sort"] and at_of.get(id(f)) in qdef_at and isinstance(f.parent, nodes.block_quote))]
     if nested:
         problems.append("footnote not at document/section level")
     dupw, unrefw = [], []
@@ -147,16 +158,20 @@ def run(ctx):
                 "V: random arrangements of 3-30 blocks over 14 labels. non-trivial = at least one definition and one reference")
     ctx.assumptions += ["docutils front end (publish_doctree); every reference in its own paragraph, definitions at top level"]
     n = 4 if quick else 5
-    consts = {"Labels": {"a", "A", "1", "2"}, "MaxEv": n, "WithHr": False, "WithHead": False}
+    consts = {"Labels": {"a", "A", "1", "2"}, "MaxEv": n, "WithHr": False, "WithHead": False, "WithNested": False}
     r = tlc.run("Footnotes", tlc.cfg(ctx, "fn_mc.cfg", consts, invariants=INVS + ["Emit"], properties=["Terminates"]), wd=ctx.wd, timeout=3000)
     tlc.expect_holds(r, "Footnotes M |= S")
     ctx.add_tlc("Footnotes_mc", r, f"arrangements <= {n} x 4 flag settings")
     want = sum(8 ** k for k in range(n + 1)) * 4
     if len(r.records) != want:
         raise tlc.MachineryFailure(f"Footnotes: {len(r.records)} behaviours exported, expected {want}")
-    r2 = tlc.run("Footnotes", tlc.cfg(ctx, "fn_mc2.cfg", {"Labels": {"a", "1"}, "MaxEv": n, "WithHr": True, "WithHead": True}, invariants=INVS + ["Emit"]), wd=ctx.wd, timeout=3000)
+    r2 = tlc.run("Footnotes", tlc.cfg(ctx, "fn_mc2.cfg", {"Labels": {"a", "1"}, "MaxEv": n, "WithHr": True, "WithHead": True, "WithNested": False}, invariants=INVS + ["Emit"]), wd=ctx.wd, timeout=3000)
     tlc.expect_holds(r2, "Footnotes[hr, headings] M |= S")
     ctx.add_tlc("Footnotes_mc_hr_head", r2, f"arrangements <= {n} over ref/def x {{a, 1}}, thematic break, heading named like a label")
+    r3 = tlc.run("Footnotes", tlc.cfg(ctx, "fn_mc3.cfg", {"Labels": {"a", "1"}, "MaxEv": n, "WithHr": False, "WithHead": False, "WithNested": True},
+                                      invariants=INVS + ["Emit"]), wd=ctx.wd, timeout=3000)
+    tlc.expect_holds(r3, "Footnotes[containers] M |= S")
+    ctx.add_tlc("Footnotes_mc_nested", r3, f"arrangements <= {n} over ref/def at top level, the definition inside a block quote, the reference inside a note x {{a, 1}}")
     rc = tlc.run("Footnotes", tlc.cfg(ctx, "fn_cov.cfg", {**consts, "MaxEv": 3, "WithHr": True, "WithHead": True}, invariants=INVS), wd=ctx.wd, coverage=True)
     for act in ("RenderRef", "RenderDef", "RenderOther", "RenderEnd", "SortStep", "NumberStep", "DetectStep", "CollectStep"):
         if rc.coverage.get(act, (0, 0))[0] == 0:
@@ -165,12 +180,13 @@ def run(ctx):
     # the order of the transform chain the model is written in, for the priorities in this tree
     from .. import pipeline
     pipeline.check(ctx, "C11")
-    recs = r.records + [x for x in r2.records if any(e[0] in ("hr", "head") for e in x["evs"])]
+    recs = (r.records + [x for x in r2.records if any(e[0] in ("hr", "head") for e in x["evs"])]
+            + [x for x in r3.records if any(e[0] in ("qdef", "nref") for e in x["evs"])])
     outs = pmap(observe, recs, chunksize=64)
     for rec, o in zip(recs, outs):
         key = (repr(rec["evs"]), rec["sort"], rec["trans"])
         ks = {k for k, _ in rec["evs"]}
-        ctx.count(key, nontrivial=ks == {"ref", "def"})
+        ctx.count(key, nontrivial=bool(ks & {"ref", "nref"}) and bool(ks & {"def", "qdef"}))
         ctx.traces_validated += 1
         case = {"leg": "R", "markdown": o["text"], "footnote_sort": rec["sort"], "footnote_transition": rec["trans"]}
         if "error" in o:
@@ -196,7 +212,7 @@ def run(ctx):
     for t in range(300 if quick else 5000):
         k = rnd.randint(3, 30)
         pool = rnd.sample(labels, rnd.randint(2, 7))
-        evs = [[rnd.choice(["ref", "ref", "def"]), rnd.choice(pool)] for _ in range(k)]
+        evs = [[rnd.choice(["ref", "ref", "def", "ref", "def", "nref", "qdef"]), rnd.choice(pool)] for _ in range(k)]
         for _ in range(rnd.choice([0, 0, 1, 2])):
             evs.insert(rnd.randint(0, len(evs)), ["hr", "-"])
         evs = [e for n, e in enumerate(evs) if not (e[0] == "hr" and n and evs[n - 1][0] == "hr")]
@@ -216,7 +232,7 @@ def run(ctx):
         traces.append({"id": c["id"], "evs": c["evs"], "sort": c["sort"], "trans": c["trans"], "obs": o["obs"]})
     tf = ctx.wd / "fn_traces.ndjson"
     tlc.write_ndjson(tf, traces)
-    rv = tlc.run("FootnotesTrace", tlc.cfg(ctx, "fn_trace.cfg", {"Labels": set(labels), "MaxEv": 0, "WithHr": True, "WithHead": True}, spec="TraceSpec", invariants=INVS + ["Verdict"]),
+    rv = tlc.run("FootnotesTrace", tlc.cfg(ctx, "fn_trace.cfg", {"Labels": set(labels), "MaxEv": 0, "WithHr": True, "WithHead": True, "WithNested": True}, spec="TraceSpec", invariants=INVS + ["Verdict"]),
                  wd=ctx.wd, env={"TRACE_FILE": str(tf)}, timeout=3000)
     tlc.expect_holds(rv, "FootnotesTrace: S on the traced runs")
     ctx.add_tlc("FootnotesTrace", rv)
